@@ -125,8 +125,8 @@ var passwords = []string{
 	"password",
 	"correct horse battery staple",
 	strings.Repeat("long-password-0123456789abcdef", 137), // 4110 bytes
-	"pässwörd-密码-\U0001F511",               // unicode incl. a non-BMP rune
-	"pa\x00ss",                                                 // embedded NUL
+	"pässwörd-密码-\U0001F511",                              // unicode incl. a non-BMP rune
+	"pa\x00ss",                                            // embedded NUL
 	" ",
 	"Password",
 	"e\u0301", // e + combining acute accent (decomposed)
